@@ -147,7 +147,20 @@ func (c *Ctx) table2(pkg, name string) ([][]int, []token.Pos, token.Pos, error) 
 	for _, r := range n.elems {
 		row, ok := r.ints()
 		if !ok {
-			return nil, nil, pos, fmt.Errorf("table %s: not two-dimensional", name)
+			// a row of equal-length index tuples (one per primitive) reads as their concatenation
+			row, ok = nil, true
+			width := -1
+			for _, e := range r.elems {
+				var tuple []int
+				if e != nil {
+					tuple, ok = e.ints()
+				}
+				if e == nil || !ok || (width >= 0 && len(tuple) != width) {
+					return nil, nil, pos, fmt.Errorf("table %s: not two-dimensional", name)
+				}
+				width = len(tuple)
+				row = append(row, tuple...)
+			}
 		}
 		out = append(out, row)
 		ps = append(ps, r.pos)
